@@ -1035,6 +1035,11 @@ func parseFunctionBlock(p *ParserZH) (*syntax.ID, *syntax.ExecBlock) {
 		panic(p.getUnexpectedIndentPeek())
 	}
 	xExecBlock = ParseExecBlock(p, blockIndent)
+	// like any other block, the body of a method consists of at least one statement
+	// (handlers alone do not make a body)
+	if len(xExecBlock.StmtBlock.Children) == 0 {
+		panic(p.getInvalidSyntaxPeek())
+	}
 
 	return xID, xExecBlock
 }
